@@ -69,11 +69,14 @@ AnnotationFails(e, dm, dv, chain) ==
             ki == [i \in 1..Len(im) |-> Key(im[i])]     ko == [i \in 1..Len(ot) |-> Key(ot[i])]
             ci == [i \in 1..Len(im) |-> KeyC(im[i])]    co == [i \in 1..Len(ot) |-> KeyC(ot[i])]
         IN [inherit |-> BagEq(ki, ko),
+            citesq  |-> BagEq(ci, co),
             cites   |-> BagEq(ci, co) /\ SeqToSet(out.refs) = UNION {{im[i].cites[c] : c \in 1..Len(im[i].cites)} : i \in 1..Len(im)},
             tile    |-> \A j \in 1..(m + 1) : Cardinality({i \in 1..Len(out.feats) : isGen(out.feats[i], j, k)}) = 1]
       judged == [k \in ks |-> Judge(k)]
   IN IF ks = {} THEN {}          \* product is not the formula: reported by C01
      ELSE Chk("C08:FeaturesInherited", \E k \in ks : judged[k].inherit)
+          \* ... the /citation qualifier included: read through the reference lists it says what it said in the source
+          \cup Chk("C08:QualifiersInherited", (\E k \in ks : judged[k].inherit) => (\E k \in ks : judged[k].inherit /\ judged[k].citesq))
           \cup Chk("C09:SourcesTile", \E k \in ks : judged[k].tile)
           \cup Chk("C09:SourcesVerbatim",
                    \* the plasmids a source feature may name: the inputs of this call and, in a multi-level history, the
